@@ -202,6 +202,13 @@ static inline size_t vec_checked_index(size_t i, size_t n, bool at)
     return i;
 }
 
+/* m.at(k) as an lvalue expression (throws std::out_of_range when the key is absent) */
+#define VMAP_AT(T, m, k) ((m)->d[vmap_checked_pos(T##_find_pos((m), (k)), (m)->n)].second)
+static inline size_t vmap_checked_pos(size_t i, size_t n)
+{
+    MODEL_ASSERT(i < n, "std::map::at: key not present (std::out_of_range)");
+    return i;
+}
 /* *it as an lvalue expression; dereferencing end() is undefined behaviour */
 #define VIT_DEREF(it) ((it).v->d[vit_checked_index((it).i, (it).v->n)])
 static inline size_t vit_checked_index(size_t i, size_t n)
